@@ -9,6 +9,38 @@ from . import common as cm
 from .common import FIELD
 
 FLOOR = 40
+ANCHORS = [
+    'field.Field.valid.setter',
+    'field.Field._valid_as_field',
+    'field.Field.__abs__',
+    'field.Field.__neg__',
+    'field.Field.__pos__',
+    'field.Field.norm',
+    'field.Field.orientation',
+    'field.Field.__getattr__',
+    'field.Field.real',
+    'field.Field.imag',
+    'field.Field.phase',
+    'field.Field.abs',
+    'field.Field.conjugate',
+    'field.Field.diff',
+    'field.Field._apply_operator',
+    'field.Field.dot',
+    'field.Field.cross',
+    'field.Field.__lshift__',
+    'field.Field.angle',
+    'field.Field.sel',
+    'field.Field.__getitem__',
+    'field.Field.pad',
+    'field.Field.resample',
+    'field.Field.rotate90',
+    'field.Field.to_vtk',
+    'io.vtk._FieldIO_VTK._from_vtk',
+    'io.hdf5._FieldIO_HDF5._h5_save_structure',
+    'io.hdf5._FieldIO_HDF5._h5_load_field',
+    'field.Field._as_array[Complex|Iterable]',
+    'field.Field._as_array[Callable]',
+]   # functions whose code the property is anchored in (mutation analysis, evidence)
 
 PASS_THROUGH = ["field.Field.__abs__", "field.Field.__neg__", "field.Field.norm", "field.Field.orientation",
                 "field.Field.__getattr__", "field.Field.real", "field.Field.imag", "field.Field.phase",
